@@ -173,6 +173,9 @@ DIRECTED = [
     ("nexus", NX + "BEGIN TAXA; TAXLABELS a b; END;", None, None),
     ("nexus", TAXA2 + "BEGIN TREES; TREE t = (a,b); TREE", None, None),
     ("nexus", TAXA2 + "BEGIN TREES; TREE t =", None, None),
+    # a TRANSLATE statement given twice, then a label that neither the table nor the TAXA block knows
+    ("nexus", TAXA2 + "BEGIN TREES; TRANSLATE 1 a, 2 b; TRANSLATE 1 a, 2 b; TREE t = (1,(2,c)); END;", None, None),
+    ("nexus", NX + "BEGIN TREES; TRANSLATE 1 a, 2 b; TRANSLATE 1 a, 2 b; TREE t = (1,(2,c)); END;", None, None),
     ("nexus", TAXA2 + "BEGIN TREES; LINK TAXA", None, None),
     ("nexus", TAXA2 + "BEGIN TREES; TRANSLATE 1", None, None),
     ("nexus", TAXA2 + "BEGIN TREES; TRANSLATE 1 a, 2", None, None),
